@@ -212,7 +212,7 @@ func (n *Node) OpenNested() {
 		return
 	}
 	if n.Major == 2 && len(n.Bytes) >= 2 {
-		if in, err := Parse(n.Bytes); err == nil && (in.Major == 4 || in.Major == 5 || in.Major == 6) {
+		if in, err := Parse(n.Bytes); err == nil && looksStructured(in, 0) {
 			// re-encoding must reproduce the bytes, otherwise this was not a canonical nested item
 			if string(in.Encode()) == string(n.Bytes) {
 				n.Inner = in
@@ -223,6 +223,40 @@ func (n *Node) OpenNested() {
 	for _, c := range n.Items {
 		c.OpenNested()
 	}
+}
+
+// looksStructured says whether a parsed item has the shape of a nested encoding produced by the
+// library (a map with text keys, a tag >= 1000 around such a thing, or a non-empty array of
+// them) rather than of a random byte string that happens to parse as CBOR.
+func looksStructured(n *Node, depth int) bool {
+	if depth > 4 {
+		return false
+	}
+	switch n.Major {
+	case 5:
+		if len(n.Items) == 0 {
+			return false
+		}
+		for i := 0; i < len(n.Items); i += 2 {
+			if n.Items[i].Major != 3 || len(n.Items[i].Bytes) == 0 {
+				return false
+			}
+		}
+		return true
+	case 6:
+		return n.Val >= 1000 && looksStructured(n.Items[0], depth+1)
+	case 4:
+		if len(n.Items) == 0 {
+			return false
+		}
+		for _, c := range n.Items {
+			if !looksStructured(c, depth+1) {
+				return false
+			}
+		}
+		return true
+	}
+	return false
 }
 
 // Leaf is a mutable terminal item with its path.
